@@ -2,7 +2,11 @@ package main
 
 import (
 	"fmt"
+	"math"
+	"strconv"
 	"strings"
+
+	"github.com/semihalev/twig"
 )
 
 func init() { runners["C09"] = runC09 }
@@ -16,6 +20,7 @@ func init() { runners["C09"] = runC09 }
 //	known:* programs of a listed known class: the model predicts the engine's (wrong) output, the spec the right one
 //	core    (driver tier "core" only, bin/evalcore) the evaluator-core validation: every node kind, expected = model
 func runC09(cases string, res *Result) {
+	c09RangeBounds(res)
 	var firstKnown = map[string]*Finding{}
 	var knownSize = map[string]int{}
 	readCases(cases, func(c Case) {
@@ -115,5 +120,101 @@ func runC09(cases string, res *Result) {
 	})
 	for _, f := range firstKnown {
 		res.add(*f)
+	}
+}
+
+// c09RangeBounds: a range written with bounds that are not whole numbers (a division, a decimal literal, a value of
+// the context). Whatever whole numbers the engine derives from them, the elements a for loop visits lie between the
+// start and the end as written and never beyond the end, one apart, the counters fit, and the else branch is
+// rendered exactly when no element is.
+func c09RangeBounds(res *Result) {
+	type rb struct {
+		a, b string
+		end  float64
+		asc  bool
+	}
+	var cases []rb
+	add := func(a string, av float64, b string, bv float64) {
+		cases = append(cases, rb{a, b, bv, math.Trunc(av) <= bv})
+	}
+	for _, n := range []int{1, 3, 5, 7, 9} {
+		add("1", 1, fmt.Sprintf("%d / 2", n), float64(n)/2)
+		add(fmt.Sprintf("%d / 2", n), float64(n)/2, "6", 6)
+		add("0", 0, fmt.Sprintf("-%d / 2", n), -float64(n)/2)
+		add(fmt.Sprintf("-%d / 2", n), -float64(n)/2, "1", 1)
+	}
+	for _, d := range []string{"0.25", "0.5", "0.75", "1.5", "2.5", "2.6", "3.49", "3.5", "3.51"} {
+		v, _ := strconv.ParseFloat(d, 64)
+		add("1", 1, d, v)
+		add(d, v, "5", 5)
+		add("0", 0, "-"+d, -v)
+		add("f", 2.5, d, v)
+		add(d, v, "g", -1.5)
+	}
+	eng := twig.New()
+	ctx := func() map[string]interface{} { return map[string]interface{}{"f": 2.5, "g": -1.5} }
+	for _, c := range cases {
+		src := "{% for i in range(" + c.a + ", " + c.b + ") %}{{ i }}:{{ loop.index }}/{{ loop.length }}:{{ loop.first ? 'f' : '' }}{{ loop.last ? 'l' : '' }},{% else %}none{% endfor %}"
+		cc := Case{"stream": "c09-range-bounds", "tpl": src}
+		res.Hist["stream:c09-range-bounds"]++
+		res.Evaluations++
+		res.count(src, true)
+		name := "rb:" + c.a + ":" + c.b
+		if err := eng.RegisterString(name, src); err != nil {
+			res.Hist["c09-range-bounds: does not parse"]++
+			continue
+		}
+		out, err := eng.Render(name, ctx())
+		if err != nil {
+			res.Hist["c09-range-bounds: render error"]++
+			continue
+		}
+		bad := func(msg string) {
+			res.add(Finding{Kind: "oracle", Where: "c09-range-bounds", Case: cc, Expected: fmt.Sprintf("whole numbers up to %v, one apart, counters to match", c.end), Observed: out, Detail: msg})
+		}
+		if out == "none" {
+			continue // nothing to iterate: the else branch alone
+		}
+		if strings.Contains(out, "none") {
+			bad("body and else branch both rendered")
+			continue
+		}
+		items := strings.Split(strings.TrimSuffix(out, ","), ",")
+		prev := 0.0
+		for k, it := range items {
+			parts := strings.Split(it, ":")
+			if len(parts) != 3 {
+				bad("unexpected item " + it)
+				break
+			}
+			v, perr := strconv.ParseFloat(parts[0], 64)
+			if perr != nil {
+				bad("element is not a number: " + parts[0])
+				break
+			}
+			// (the start is turned into a whole number by cutting its fraction off, so the first element may stand
+			// before the start as written; nothing is demanded there)
+			if (c.asc && v > c.end+1e-9) || (!c.asc && v < c.end-1e-9) {
+				bad(fmt.Sprintf("element %v lies beyond the end of the range as written", v))
+				break
+			}
+			if k > 0 && math.Abs(math.Abs(v-prev)-1) > 1e-9 {
+				bad(fmt.Sprintf("elements %v and %v are not one apart", prev, v))
+				break
+			}
+			prev = v
+			wantCnt := fmt.Sprintf("%d/%d", k+1, len(items))
+			wantFl := ""
+			if k == 0 {
+				wantFl += "f"
+			}
+			if k == len(items)-1 {
+				wantFl += "l"
+			}
+			if parts[1] != wantCnt || parts[2] != wantFl {
+				bad("counters of element " + strconv.Itoa(k+1) + ": " + parts[1] + " " + parts[2] + ", want " + wantCnt + " " + wantFl)
+				break
+			}
+		}
 	}
 }
